@@ -57,6 +57,8 @@ type c20Stores struct {
 	a, b *boltz.BaseStore[*c20Ent]
 	pub  []string   // a.GetPublicSymbols(), sorted
 	pubs [][]string // child stores (c20_child.go): the public symbols of a and of every store up its parent chain
+	schema int                         // c20_keyed.go: which naming schema (0: every symbol stored under its name)
+	levels []*boltz.BaseStore[*c20Ent] // c20_keyed.go: the validating store and the stores up its parent chain
 }
 
 // assignable symbols of store A: bit i set <=> c20Bits[i] is made public
@@ -359,6 +361,7 @@ type c20Emitter struct {
 	seen  map[string]bool
 	nBase  int // lines emitted against a store without parent
 	nChild int // child-store variants emitted (c20_child.go)
+	nKeyed int // keyed-store variants emitted (c20_keyed.go)
 }
 
 func (e *c20Emitter) line(tag string, mask uint64, query string, toks []string) {
@@ -388,6 +391,10 @@ func (e *c20Emitter) line(tag string, mask uint64, query string, toks []string) 
 		}
 		if e.nBase%every == 0 {
 			e.childVariants(tag, mask, query, toks)
+		}
+		// … and against stores whose symbols are stored under keys that are other symbols' names (c20_keyed.go)
+		if e.nBase%3 == 1 {
+			e.keyedVariants(tag, mask, query, toks)
 		}
 	}
 }
@@ -1029,11 +1036,11 @@ func c20Exec(line string) string {
 		return "bad-case"
 	}
 	tag := f[0]
-	chain, ok := c20ParseChain(f[1])
+	schema, chain, ok := c20ParseCfg(f[1])
 	if !ok {
 		return "bad-case"
 	}
-	st := c20StoreForChain(chain)
+	st := c20StoreForCfg(schema, chain)
 	if ms, ps := st.cfgFields(); ps != f[3] || ms != f[2] {
 		return "cfg-mismatch " + ps
 	}
@@ -1065,8 +1072,12 @@ func c20Exec(line string) string {
 		}
 		// the same text comes with many assignments in a row; parsing does not depend on which
 		// symbols are public (only on their types), so the parse of the previous line is reused
-		if c20LastParse.text != f[4] || c20LastParse.q == nil {
-			c20LastParse = c20ParseMemo{text: f[4]}
+		memoKey := f[4]
+		if schema != 0 && len(chain) > 1 { // a child of a keyed store knows its maps by other names (and types)
+			memoKey = fmt.Sprintf("k%d^:%s", schema, f[4])
+		}
+		if c20LastParse.text != memoKey || c20LastParse.q == nil {
+			c20LastParse = c20ParseMemo{text: memoKey}
 			q, err := c20SafeParse(st.a, text)
 			c20LastParse.q, c20LastParse.err = q, err
 			if err == nil && text != "" {
